@@ -98,6 +98,9 @@ class Dykstra(E2Contract):
         vals["eps"] = rng.choice([1e-2, 1e-3, 1e-6])
         return vals
 
+    def canary(self, W, cfg, inp, out):
+        return [eq("canary", out["res_v"], inp["var"], "(false) the physical projection returns its argument")]
+
     def run(self, W, cfg, inp):
         kind, order, it = cfg
         tmpl = empty_obj(W, kind, inp["c_sys"], 2, False)
